@@ -153,6 +153,11 @@ func ParseSliceHeader(nalu []byte, spsMap map[uint32]*SPS, ppsMap map[uint32]*PP
 	if !ok {
 		return nil, fmt.Errorf("sps ID %d unknown", spsID)
 	}
+	if sps.Log2MaxFrameNumMinus4 > 12 || sps.Log2MaxPicOrderCntLsbMinus4 > 12 {
+		// Range 0..12 according to ISO/IEC 14496-10 Section 7.4.2.1.1. Larger values give absurd or negative bit counts.
+		return nil, fmt.Errorf("sps log2_max_frame_num_minus4 %d or log2_max_pic_order_cnt_lsb_minus4 %d > 12",
+			sps.Log2MaxFrameNumMinus4, sps.Log2MaxPicOrderCntLsbMinus4)
+	}
 	if sps.SeparateColourPlaneFlag {
 		sh.ColorPlaneID = uint32(r.Read(2))
 	}
